@@ -310,6 +310,10 @@ func (h *SexpHash) TypeCheckField(key Sexp, val Sexp) error {
 			return fmt.Errorf("%s has no field '%s' [err 2]", p.UserStructDefn.Name, k)
 		}
 		obsTyp := val.Type()
+		if vh, isHash := val.(*SexpHash); isHash {
+			// a record keeps the definition it was created under
+			obsTyp = vh.definedType()
+		}
 		if obsTyp == nil {
 			// allow certain types to be nil, e.g. [] and nil itself
 			switch a := val.(type) {
@@ -942,6 +946,16 @@ func (hash *SexpHash) SexpString(ps *PrintState) string {
 
 func (r *SexpHash) Type() *RegisteredType {
 	return GoStructRegistry.Registry[r.TypeName]
+}
+
+// definedType returns the struct definition this record was created
+// under (which a later redeclaration of the same struct name does not
+// change), or else the registered type of its name.
+func (r *SexpHash) definedType() *RegisteredType {
+	if r.GoStructFactory != nil && r.GoStructFactory.UserStructDefn != nil {
+		return r.GoStructFactory
+	}
+	return r.Type()
 }
 
 func compareHash(a *SexpHash, bs Sexp) (int, error) {
